@@ -691,13 +691,19 @@ def routerProcess (fuel : Nat) (st : St) (n i : Nat) (f : Frame) : St × Frame :
 
 end
 
+/-- `IPv4Address.is_loopback`: the address lies in 127.0.0.0/8. -/
+def isLoopback (ip : Ip) : Bool := inNet ip 0x7F000000#32 8
+
 /-- `ICMP.ping`: `pings` echo requests with one identifier; success iff exactly `pings` replies were counted.
-An unresolvable outbound interface at any iteration resets the identifier to `None` (result `False`). -/
+An unresolvable outbound interface at any iteration resets the identifier to `None` (result `False`).
+Early case (after `_can_perform_action`): `target_ip_address.is_loopback` — nothing is sent, no identifier is drawn, no packet
+is built; the answer is `any(nic.enabled for nic in node.network_interfaces.values())`. -/
 def ping (fuel : Nat) (st : St) (n : Nat) (target : Ip) (pings : Nat) : St × Bool :=
   match st.node? n with
   | none => (st, false)
   | some nd =>
     if !nd.on then (st, false) else
+    if isLoopback target then (st, nd.ifaces.any (·.enabled)) else
     let ident := st.nextId
     let st := { st with nextId := st.nextId + 1 }
     let res := (List.range pings).foldl (fun (acc : St × Bool) _ =>
